@@ -27,6 +27,12 @@ def jobs(prop, tier, seed):
         variant = "normalise" if union_free(spec) else "monotone"
         b = dict(depth=2, width=2, strlen=2, budget=1 if q else 2, int_abs=99 if q else 999, float_pool=True, str_pool=True)
         out.append(dict(harness="C14", variant=variant, pool="data", pid=pid, opts={}, bounds=b, budget_s=30 if q else 150))
+    for pid in pools.ids("data", tier):
+        spec, _ = pools.get("data", pid)
+        if q and pools.POOLS["data"]()[pid][2] != "quick":
+            continue
+        b = dict(depth=2, width=2, strlen=2, budget=1 if q else 2)
+        out.append(dict(harness="C14", variant="passthrough", pool="data", pid=pid, opts={}, bounds=b, budget_s=25 if q else 120))
     for cls in ("int", "float", "str", "bool", "NoneType"):
         out.append(dict(harness="C14", variant="custom", pid=f"custom({cls})", cls=cls, opts={}, bounds=dict(strlen=2, int_abs=99, float_pool=True, str_pool=True, budget=1, depth=1), budget_s=30))
     return out
@@ -295,5 +301,54 @@ class Custom:
         return None
 
 
+def identity_coercer(cls, data):
+    return data
+
+
+class PassThrough:
+    """a custom coercer that returns its datum unchanged (right- or wrong-typed, as it
+    comes): since the result is still type-checked, the outcome must be the strict one"""
+
+    def __init__(self, job):
+        from apischema import ValidationError, deserialization_method
+
+        self.job = job
+        self.prog = program_of(job)
+        self.strict = deserialization_method(self.prog.tp)
+        self.custom = deserialization_method(self.prog.tp, coerce=identity_coercer)
+        self.VE = ValidationError
+        self.opts = ref_opts(job)
+        self.bounds = bounds_of(job)
+        self.functions = sorted(set(method_classes(self_of(self.custom)) + method_classes(self_of(self.strict))))
+        self.expect_tags = ["compared"]
+        self.assumptions = []
+        self.relax = ()
+
+    def body(self, ctx: Ctx):
+        d = Gen(ctx, self.prog, self.bounds, self.opts).json(self.prog.spec)
+        ctx.witness = d
+        ctx.run_phase()
+        out = []
+        for m in (self.strict, self.custom):
+            try:
+                out.append(("ok", m(d)))
+            except self.VE:
+                out.append(("err", None))
+            except Exception as e:
+                return Failure("crash", type(e).__name__, witness=d, extra={"exc": type(e).__name__})
+        ctx.notes["tag:compared"] = True
+        from vf.harness.C13 import num_eq
+
+        if self.relax and out[0][0] == "err" and out[1][0] == "ok":
+            from vf.oracle.deser import RefDeser
+
+            if not RefDeser(self.prog, self.opts).run(d)[0] and RefDeser(self.prog, self.opts, self.relax).run(d)[0]:
+                return None  # the *strict* run is the one hit by the known finding
+        if out[0][0] != out[1][0] or (out[0][0] == "ok" and not num_eq(out[0][1], out[1][1])):
+            return Failure("custom-coercer-result-not-type-checked", witness=d, extra={"strict": out[0], "custom": out[1]})
+        return None
+
+
 def make(job):
-    return Custom(job) if job["variant"] == "custom" else Inst(job)
+    v = job["variant"]
+    return Custom(job) if v == "custom" else PassThrough(job) if v == "passthrough" else Inst(job)
